@@ -4,6 +4,8 @@ Extracted facts (fail closed on any other shape):
   * the keyword arguments of the one RefRulePosition(...) built in ReferenceResolver.resolve_one_step
     (which position each field takes), that it is appended to self.pos_crossref_list under the
     guard `resolved is not None and type(resolved) is not Postponed and metamodel.textx_tools_support`;
+  * the metamodel.builtins fallback follows the collection (builtin-resolved references add no entry);
+    only models with a _tx_reference_resolver take part in the resolution rounds;
   * both ObjCrossRef(...) constructions pass position=<node>.position, position_end=<node>.position_end
     of the same node, and ObjCrossRef.__init__ stores them;
   * whether resolve_one_step sorts self.pos_crossref_list unconditionally after its loop, and by which field;
@@ -51,6 +53,16 @@ def _entry_fields(fn):
     other = [t for t in tests if t not in ("resolved is not None and type(resolved) is not Postponed and metamodel.textx_tools_support",
                                            "get_model(obj) == self.model")]
     need(not other, "collection is under additional conditions: %r" % other)
+    # the builtins fallback comes after the collection, in the same block: a reference resolved
+    # through metamodel.builtins adds no entry
+    holder = [g for g in guards if ast.unparse(g.test) == "get_model(obj) == self.model"]
+    need(len(holder) == 1, "the per-model test `get_model(obj) == self.model` not found around the collection")
+    body = holder[0].body
+    ci = [i for i, st in enumerate(body) if _contains(st, call)]
+    bi = [i for i, st in enumerate(body) if isinstance(st, ast.If) and "metamodel.builtins" in ast.unparse(st.test)]
+    need(len(ci) == 1 and len(bi) == 1 and ci[0] < bi[0], "the builtins fallback does not follow the collection")
+    need(ast.unparse(body[bi[0]].test) == "resolved is None and metamodel.builtins and (crossref.obj_name in metamodel.builtins)",
+         "builtins fallback test changed: " + ast.unparse(body[bi[0]].test))
     return out
 
 
@@ -73,6 +85,9 @@ def _crossref_positions(tree, po):
          ast.unparse(_calls(po, "ReferenceResolver")[0]) == "ReferenceResolver(parser, model, pos_crossref_list)",
          "ReferenceResolver construction changed")
     need("model._pos_crossref_list = pos_crossref_list" in ast.unparse(po), "model._pos_crossref_list is not the collected list")
+    # only models under construction take part in the rounds
+    need("models = list(filter(lambda x: hasattr(x, '_tx_reference_resolver'), models))" in ast.unparse(po),
+         "the filter of the models under construction changed")
 
 
 def _list_sort(fn):
